@@ -373,6 +373,95 @@ def get_incident(pub, name, arena):
     return out, opened
 
 
+def watch_reads(call):
+    """-> (outcome, result, raw): runs call() and records every path string handed to open() / BZ2File while it runs"""
+    raw = []
+    real_open = builtins.open
+    real_bz2 = bz2.BZ2File
+
+    def note(p):
+        try:
+            if isinstance(p, bytes):
+                p = os.fsdecode(p)
+            if isinstance(p, str):
+                raw.append(p)
+        except Exception:
+            pass
+
+    def w_open(file, *a, **kw):
+        note(file)
+        return real_open(file, *a, **kw)
+
+    class W(real_bz2):
+        def __init__(self, filename, *a, **kw):
+            note(filename)
+            real_bz2.__init__(self, filename, *a, **kw)
+
+    builtins.open = w_open
+    bz2.BZ2File = W
+    try:
+        try:
+            res = call()
+            out = "ok"
+        except BaseException as e:
+            res, out = None, "raise:" + type(e).__name__
+    finally:
+        builtins.open = real_open
+        bz2.BZ2File = real_bz2
+    return out, res, raw
+
+
+def list_incidents(pub, since):
+    """LogPublisher.remote_list_incidents(since) -> (outcome, {name: trigger}, raw paths opened)"""
+    return watch_reads(lambda: pub.remote_list_incidents(since))
+
+
+class FakeObserver:
+    def __init__(self):
+        self.calls = []
+
+    def callRemoteOnly(self, name, *a, **kw):
+        self.calls.append((name, a))
+
+    def callRemote(self, name, *a, **kw):
+        self.calls.append((name, a))
+        return defer.succeed(None)
+
+    def notifyOnDisconnect(self, cb):
+        return 1
+
+    def dontNotifyOnDisconnect(self, m):
+        pass
+
+
+def catch_up(pub, since):
+    """IncidentSubscription.catch_up(since) -> (outcome, [(name, trigger)] sent to the observer, raw paths opened)"""
+    from foolscap.logging.publish import IncidentSubscription
+    obs = FakeObserver()
+    sub = IncidentSubscription(obs, pub._logger, pub)
+    out, _, raw = watch_reads(lambda: sub.catch_up(since))
+    return out, [a for n, a in obs.calls if n == "new_incident"], raw
+
+
+class FakeRemotePublisher:
+    def __init__(self):
+        self.calls = []
+
+    def callRemote(self, name, *a, **kw):
+        self.calls.append((name, a, kw))
+        return defer.succeed(None)
+
+
+def connect(basedir):
+    """IncidentObserver(basedir).connect() -> (outcome, the since= it sent to the publisher | None, raw paths opened)"""
+    from foolscap.logging.gatherer import IncidentObserver
+    rp = FakeRemotePublisher()
+    obs = IncidentObserver(basedir, "tubid", NullGatherer(), rp, io.StringIO())
+    out, _, raw = watch_reads(obs.connect)
+    since = rp.calls[0][2].get("since") if rp.calls else None
+    return out, since, raw
+
+
 # ---------------------------------------------------------------------------
 # save_service_data
 
